@@ -40,6 +40,11 @@ pub struct WireState {
     pub ep_dropped: bool,
     pub delivered_total: usize,
     pub wr_pending_polls: u64,
+    /// the write that would take the output beyond this many bytes in total is cut there, and the
+    /// next one fails with an io error (connection loss at an arbitrary byte of the output)
+    pub wr_err_after: Option<usize>,
+    /// set when `wr_err_after` fired; the driver turns it into a fault event
+    pub wr_err_fired: Option<usize>,
 }
 
 #[derive(Clone, Debug)]
@@ -67,6 +72,8 @@ impl Wire {
             ep_dropped: false,
             delivered_total: 0,
             wr_pending_polls: 0,
+            wr_err_after: None,
+            wr_err_fired: None,
         })))
     }
 
@@ -111,6 +118,20 @@ impl Wire {
             } else {
                 None
             }
+        };
+        if let Some(wk) = waker {
+            wk.wake();
+        }
+    }
+
+    /// the connection is lost at this byte: what is still on the wire never arrives
+    pub fn cut_and_close(&self, st: RdState) {
+        let waker = {
+            let mut w = self.0.borrow_mut();
+            w.inflight.clear();
+            w.rd_pending = st;
+            w.rd_state = st;
+            w.rd_waker.take()
         };
         if let Some(wk) = waker {
             wk.wake();
@@ -230,10 +251,19 @@ impl SimStream {
             w.wr_err = false;
             return Poll::Ready(Err(io::Error::new(io::ErrorKind::BrokenPipe, "sim: write error")));
         }
-        let n = match w.wr_cap {
+        let mut n = match w.wr_cap {
             None => buf.len(),
             Some(c) => c.min(buf.len()),
         };
+        if let Some(m) = w.wr_err_after {
+            let room = m.saturating_sub(w.out.len());
+            if room == 0 {
+                w.wr_err_after = None;
+                w.wr_err_fired = Some(m);
+                return Poll::Ready(Err(io::Error::new(io::ErrorKind::BrokenPipe, "sim: write error")));
+            }
+            n = n.min(room);
+        }
         if n > 0 {
             w.out.extend_from_slice(&buf[..n]);
             if let Some(c) = w.wr_cap.as_mut() {
